@@ -89,12 +89,18 @@ inductive FOut where
   | degenerate
 deriving Repr, DecidableEq
 
-/-- inner loop of `Filling`: windings of the other subpaths at `pos` (boundary ones not added) -/
+/-- `Close()` on a copy of an open subpath (baea187): a last point equal to the start becomes the
+Close command itself -/
+def closedVerts (vs : List IPt) : List IPt :=
+  if vs.length > 1 ∧ vs.getLast? = vs.head? then vs.dropLast else vs
+
+/-- inner loop of `Filling`: windings of the other subpaths (open ones closed) at `pos` (boundary
+ones not added) -/
 def othersGo (pos : IPt) (i : Nat) : List Sub → Nat → Int → Int
   | [], _, n => n
   | s :: rest, j, n =>
     if i == j then othersGo pos i rest (j + 1) n
-    else match windingsSub s.1 pos s.2 with
+    else match windingsSub true pos (if s.1 then s.2 else closedVerts s.2) with
       | .ok ni bi => othersGo pos i rest (j + 1) (if bi then n else n + ni)
 
 def fillingGo (rule : Rule) (all : List Sub) : List Sub → Nat → List Bool → FOut
